@@ -33,6 +33,7 @@ class Check(PropertyCheck):
             w = self.rng.range(3, 12)
             tag = "{" + self.rng.choice(["a", "b1", "a,b"]) + "}"
             out.append(gen.box(w + len(tag), 1, inner=[" " * self.rng.below(w) + tag]))
+        out += [gen.zoo(self.rng) for _ in range(n // 4)]
         for _ in range(n // 8):
             # shapes inside shapes inside shapes, with labels / tags / small drawings at every level
             depth = self.rng.range(2, 4)
